@@ -646,7 +646,8 @@ def run_corpus(ctx):
             with db_session:
                 data = pickle.dumps(getattr(w.obj(chk['owner'][0], tuple(chk['owner'][1])), chk['attr']))
             with db_session:
-                got = sorted(list(i._get_raw_pkval_()) for i in pickle.loads(data))
+                try: got = sorted(list(i._get_raw_pkval_()) for i in pickle.loads(data))
+                except Exception as e: got = 'raised %s: %s' % (type(e).__name__, str(e)[:100])
             if got != chk['expect']:
                 ctx.violation(c['what'], inp, observed=got, expected=chk['expect'], key=c['key'])
         w.db.disconnect()
@@ -789,8 +790,13 @@ def pickle_tie(ctx):
                 if pre == 'loaded+lazy': b.bio
                 if pre == 'deleted': b.delete()
                 sess = [{'pk': 1, 'status': b._status_, 'vals': snap(b)}]
-            o = pickle.loads(data)
-            real = {'pk': o._pkval_, 'deleted': o._status_ in core.del_statuses, 'vals': snap(o)}
+            try:
+                o = pickle.loads(data)
+                real = {'pk': o._pkval_, 'deleted': o._status_ in core.del_statuses, 'vals': snap(o)}
+            except Exception as e:
+                real = {'pk': None, 'deleted': None, 'vals': [], 'raised': type(e).__name__}
+                ctx.violation('pickle.loads of a pickled entity raised in the receiving session', {'schema': w.src, 'pickled': 'A[1] (%s)' % how, 'database': 'changed' if changed else 'unchanged', 'receiving session': pre},
+                              observed='%s: %s' % (type(e).__name__, str(e)[:150]), expected='the object', key='pickle-loads:entity:' + type(e).__name__)
             core.rollback()
         reqs.append({'op': 'unpickle_entity', 'session': sess, 'pickle': {'pk': 1, 'd': vals}})
         checks.append(('unpickle', [how, 'db-changed' if changed else 'db-unchanged', 'session:' + pre], real))
